@@ -125,5 +125,81 @@ func TestVerifC10SM2(t *testing.T) {
 			pool.Put(g)
 		}
 	}
+	// inputs as SUB-SLICES of one larger record (each has spare capacity reaching into the next field):
+	// nothing in the record may change, in any field order
+	for i := 0; i < hk.N(120, 1200); i++ {
+		lr := hk.NewRNG(hk.Seed(), caseID("c10rec", i))
+		d := randScalar(lr)
+		P := refPub(d)
+		idV, msgV := lr.Bytes(lr.Pick([]int{0, 16, 33})), lr.Bytes(lr.Pick([]int{0, 32, 70}))
+		za0, _ := ref.SM2ZA(idV, ref.B32(P.X), ref.B32(P.Y))
+		eV := ref.SM2E(za0, msgV)
+		stream := lr.Bytes(32 * 4)
+		m := ref.SM2Sign(d, eV, stream)
+		if m.R == nil {
+			continue
+		}
+		fields := map[string][]byte{"px": ref.B32(P.X), "py": ref.B32(P.Y), "r": ref.B32(m.R), "s": ref.B32(m.S), "e": eV, "za": za0, "id": idV, "msg": msgV, "priv": ref.B32(d)}
+		names := []string{"px", "py", "r", "s", "e", "za", "id", "msg", "priv"}
+		// random field order
+		for j := len(names) - 1; j > 0; j-- {
+			k := lr.Intn(j + 1)
+			names[j], names[k] = names[k], names[j]
+		}
+		var record []byte
+		off := map[string][2]int{}
+		for _, nme := range names {
+			off[nme] = [2]int{len(record), len(record) + len(fields[nme])}
+			record = append(record, fields[nme]...)
+		}
+		record = append(record, lr.Bytes(40)...) // trailing live data
+		snapshot := append([]byte{}, record...)
+		get := func(nme string) []byte { o := off[nme]; return record[o[0]:o[1]] } // cap runs to the end of the record
+		type call struct {
+			name string
+			f    func() string
+			want string
+		}
+		calls := []call{
+			{"VerifyHashed", func() string { ok, _ := VerifyHashed(get("px"), get("py"), get("e"), get("r"), get("s")); return fmt.Sprint(ok) }, "true"},
+			{"Verify", func() string { ok, _ := Verify(get("id"), get("px"), get("py"), get("msg"), get("r"), get("s")); return fmt.Sprint(ok) }, "true"},
+			{"VerifyZa", func() string { ok, _ := VerifyZa(get("px"), get("py"), get("za"), get("msg"), get("r"), get("s")); return fmt.Sprint(ok) }, "true"},
+			{"SignHashed", func() string { a, b, _ := SignHashed(newScript(stream), get("priv"), get("e")); return hk.Hex(a) + hk.Hex(b) }, hk.Hex(ref.B32(m.R)) + hk.Hex(ref.B32(m.S))},
+			{"Sign", func() string {
+				a, b, _ := Sign(get("id"), get("px"), get("py"), newScript(stream), get("priv"), get("msg"))
+				return hk.Hex(a) + hk.Hex(b)
+			}, hk.Hex(ref.B32(m.R)) + hk.Hex(ref.B32(m.S))},
+			{"ZA", func() string { z, _ := ZA(get("id"), get("px"), get("py")); return hk.Hex(z) }, hk.Hex(za0)},
+			{"DerivePublic", func() string { x, y, _ := DerivePublic(get("priv")); return hk.Hex(x) + hk.Hex(y) }, hk.Hex(ref.B32(P.X)) + hk.Hex(ref.B32(P.Y))},
+			{"CheckOnCurve", func() string { return fmt.Sprint(CheckOnCurve(get("px"), get("py"))) }, "true"},
+			{"TestPrivateKey", func() string { return fmt.Sprint(TestPrivateKey(get("priv"))) }, "0"},
+		}
+		for _, c := range calls {
+			for rep := 0; rep < 2; rep++ {
+				var got string
+				p, pm, _, _ := hk.Try(func() { got = c.f() })
+				if p {
+					r.Violation("sm2-panics-on-record-subslices:"+c.name, hk.D{"panic": pm, "order": names})
+				} else if got != c.want {
+					r.Violation(fmt.Sprintf("sm2-answer-wrong-or-not-repeatable-on-record-subslices:%s:repeat%d", c.name, rep), hk.D{"order": names, "got": got, "want": c.want})
+				}
+				if !bytes.Equal(record, snapshot) {
+					first := 0
+					for first < len(record) && record[first] == snapshot[first] {
+						first++
+					}
+					hit := "trailing-data"
+					for nme, o := range off {
+						if first >= o[0] && first < o[1] {
+							hit = nme
+						}
+					}
+					r.Violation(fmt.Sprintf("sm2-writes-into-caller-record:%s", c.name), hk.D{"op": c.name, "order": names, "first_changed_offset": first, "field_hit": hit})
+					copy(record, snapshot)
+				}
+			}
+			r.Eval("sm2|record-subslices|" + c.name)
+		}
+	}
 	r.Sample(hk.D{"ops": "SignHashed SignZa Sign VerifyHashed VerifyZa Verify ZA DerivePublic CheckOnCurve TestPrivateKey", "inputs": "every slice in PROT_READ pages, placed mid/end/start of its pages", "repeat": 2})
 }
